@@ -53,6 +53,14 @@ def _expand(expr: ast.AST, defs: Dict[str, ast.AST], env: Dict[str, ast.AST], de
 
 
 def collect_sites(repo: Repo, c: Cls, entry: str) -> List[Site]:
+    cache = repo.__dict__.setdefault("_site_cache", {})
+    key = (c, entry)
+    if key not in cache:
+        cache[key] = _collect_sites(repo, c, entry)
+    return cache[key]
+
+
+def _collect_sites(repo: Repo, c: Cls, entry: str) -> List[Site]:
     start = repo.resolve_method(c, entry)
     if start is None:
         return []
